@@ -1,7 +1,7 @@
 (* C06 -- Mixed schedules perform the minimal possible number of forward steps
    Property theorems only: each proof is one application of a lemma proved in Proofs/, followed by Print Assumptions. *)
 From Coq Require Import ZArith List Bool.
-From CS Require MixInv MixDP GenLang5 GenMixed MixHelperSpec.
+From CS Require MixInv MixDP GenLang5 GenMixed MixHelperSpec MixHelperCoh.
 From CS Require Import Actions NAdvance Multistage Exec Sched RunFacts Projections BasicInv MultistageRun AllocTotal TLBridge MixBridge.
 Import ListNotations.
 Open Scope Z_scope.
@@ -18,6 +18,16 @@ Print Assumptions C06_mixed_forward_total.
 Theorem C06_cost_is_planner_cost : forall m k : Z, 1 <= m -> (1 <= k \/ m = 1 /\ 0 <= k) -> C3 m k = MixDP.C m k.
 Proof. exact C3_C. Qed.
 Print Assumptions C06_cost_is_planner_cost.
+
+(* the model of optimal_steps_mixed that the extracted driver evaluates and the correspondence compares with the implementation (Binomial.optimal_steps_mixed: cache_step with the dictionary explicit, started empty) returns MixDP.C n s on the whole domain *)
+Module M_C06_helper_model_value.
+Import MixHelperCoh.
+Theorem C06_helper_model_value :
+  forall n s : Z,
+         1 <= n -> Z.min 1 (n - 1) <= s -> Binomial.optimal_steps_mixed n s = Actions.Ok (MixDP.C n s).
+Proof. exact (@MixHelperCoh.optimal_steps_mixed_value). Qed.
+Print Assumptions C06_helper_model_value.
+End M_C06_helper_model_value.
 
 (* THE PUBLISHED HELPER optimal_steps_mixed IS THE SOURCE: MixHelperSpec.osm_shape is the Gallina function harness/translate.py (HelperTr) renders from optimal_steps_mixed of mixed.py (behind cache_step; `m = 1 + f(n-1, s-1); for i in range(2, n): m = min(m, i + f(i, s) + f(n-i, s-1))` as py_for over a running minimum); Gen/MixHelperGen.v re-translates the current source on every run and proves the result equal to that term by conversion.  Whenever the memoised planner mixed_step_memoization(n, s) (Mixed.memo, itself re-translated: Gen/MemoGen.v) returns a plan, the helper returns that plan's cost, for every fuel and argument *)
 Module M_C06_helper_is_source.
